@@ -42,6 +42,16 @@ namespace dllexports
         char seq[4];
         target* logger;
         sqf::runtime::runtime* runtime;
+        // true while sqfvm_call / sqfvm_load_config of this instance is on the stack (also while it preprocesses or parses: the
+        // runtime state is still `empty` then)
+        bool in_api_call;
+    };
+    // Marks the instance as busy for the duration of an API call; a nested scope (load_config from a callback) restores the outer value
+    struct in_api_call_scope
+    {
+        bool& flag; bool outer;
+        in_api_call_scope(bool& f) : flag(f), outer(f) { flag = true; }
+        ~in_api_call_scope() { flag = outer; }
     };
     // Performs the provided action on an instance
     // @returns empty optional if in is no valid instace
@@ -71,6 +81,7 @@ namespace dllexports
         actual->seq[1] = 'Q';
         actual->seq[2] = 'F';
         actual->seq[3] = 'E';
+        actual->in_api_call = false;
 
         actual->logger = new target();
         actual->logger->callback = callback;
@@ -179,6 +190,7 @@ extern "C" {
                 call_data_scope(void*& s) : slot(s), outer(s) { slot = NULL; }
                 ~call_data_scope() { slot = outer; }
             } scope(ref.logger->call_data);
+            dllexports::in_api_call_scope busy(ref.in_api_call);
             auto ppedStr = ref.runtime->parser_preprocessor().preprocess(
                 *ref.runtime, std::string_view(contents, length), { "dllexports"sv, {} });
 
@@ -214,6 +226,12 @@ extern "C" {
             {
                 return instance_running;
             }
+            if (ref.in_api_call)
+            { // Issued from the log callback while a call of this instance preprocesses or parses its text (the state is still empty):
+              // running it would replace the call data of the call in progress for the rest of its diagnostics
+                return instance_running;
+            }
+            dllexports::in_api_call_scope busy(ref.in_api_call);
             ref.logger->call_data = call_data;
             auto ppedStr = ref.runtime->parser_preprocessor().preprocess(
                 *ref.runtime, std::string_view(code, length), { "dllexports"sv, {} });
